@@ -35,15 +35,16 @@ type sortProcessor struct {
 	resultsSoFar   *iqr.IQR
 	err            error
 	hasFinalResult bool
-	finalNumRecs   int
 }
 
 func (p *sortProcessor) Process(inputIQR *iqr.IQR) (*iqr.IQR, error) {
 	if inputIQR == nil {
-		// There's no more input, so we can send the results.
+		// There's no more input, so we can send the results. Hand out a
+		// copy: whoever gets it (commands downstream, the merging of several
+		// sorted streams) modifies it in place, and the final result may be
+		// asked for again after a Rewind().
 		p.hasFinalResult = true
-		p.finalNumRecs = p.resultsSoFar.NumberOfRecords()
-		return p.resultsSoFar, io.EOF
+		return p.resultsSoFar.Copy(), io.EOF
 	}
 
 	p.validate()
@@ -329,15 +330,7 @@ func (p *sortProcessor) Cleanup() {
 
 func (p *sortProcessor) GetFinalResultIfExists() (*iqr.IQR, bool) {
 	if p.hasFinalResult {
-		if p.resultsSoFar.NumberOfRecords() != p.finalNumRecs {
-			// We got here because the resultsSoFar we returned earlier got modified.
-			// TODO: maybe we should avoid this situation by copying
-			// resultsSoFar if we know we'll Rewind() and return it later.
-			log.Warnf("sortProcessor.GetFinalResultIfExists: resultsSoFar has %d records, but finalNumRecs is %d",
-				p.resultsSoFar.NumberOfRecords(), p.finalNumRecs)
-			return nil, false
-		}
-		return p.resultsSoFar, true
+		return p.resultsSoFar.Copy(), true
 	}
 
 	return nil, false
